@@ -316,22 +316,26 @@ def indexOfAux : List Nat → Nat → Nat → Option Nat
 /-- ceremony.go:1887 getPrivateKeyPackageIndex (`none` = -1) -/
 def packageIndex (r : Result) (c a : Nat) : Option Nat := indexOfAux (recipients r a) c 0
 
-/-- keyspool.go:502 EncryptPrivateKeysPackage, inner layer: entry `i` is the author's private flip key encrypted to
-recipient `i`'s public key (the outer layer is encrypted to the *public* flip key, which everybody gets).
+/-- keyspool.go:502 EncryptPrivateKeysPackage, inner layer.  The package is POSITIONAL: entry `i` belongs to recipient
+`i` of `candidatesPerAuthor[author]` and is the author's private flip key encrypted to that recipient's public key; a
+recipient whose stored public key does not parse (`bad c`: empty / malformed `PubKey`, keyspool.go:508-511) keeps its
+position with an EMPTY entry (`none`).  (The outer layer is encrypted to the *public* flip key, which everybody gets.)
 `enc c k` = ECIES encryption of `k` to candidate `c`'s public key: a parameter. -/
-def keyPackage {K E : Type} (enc : Nat → K → E) (r : Result) (a : Nat) (key : K) : List E :=
-  (recipients r a).map fun c => enc c key
+def keyPackage {K E : Type} (enc : Nat → K → E) (bad : Nat → Bool) (r : Result) (a : Nat) (key : K) : List (Option E) :=
+  (recipients r a).map fun c => if bad c then none else some (enc c key)
 
 /-- keyspool.go:526 getEncryptedKeyFromPackage after the outer layer is opened (`none` = the length error) -/
 def keyFromPackage {E : Type} (pkg : List E) (i : Nat) : Option E := pkg[i]?
 
-/-- ceremony.go:1761 GetFlipKeys + :1802 DecryptMessage: what candidate `c` obtains for the flips of author `a` -/
-def obtainKey {K E : Type} (enc : Nat → K → E) (dec : Nat → E → Option K) (r : Result) (c a : Nat) (key : K) : Option K :=
+/-- ceremony.go GetFlipKeys + DecryptMessage: what candidate `c` obtains for the flips of author `a`
+(`len(encryptedPrivateKey) == 0` ⇒ "private keys package is missing") -/
+def obtainKey {K E : Type} (enc : Nat → K → E) (dec : Nat → E → Option K) (bad : Nat → Bool) (r : Result) (c a : Nat)
+    (key : K) : Option K :=
   match packageIndex r c a with
   | none => none                                    -- "invalid private key index"
   | some i =>
-    match keyFromPackage (keyPackage enc r a key) i with
-    | none => none
-    | some e => dec c e
+    match keyFromPackage (keyPackage enc bad r a key) i with
+    | some (some e) => dec c e
+    | _ => none
 
 end IdenaModel.Lottery
